@@ -72,6 +72,12 @@ def gen(seed: int, tier: str) -> dict[str, Any]:
         ops.append({"t": round(tb + rng.choice([0.001, 0.004]), 6), "op": rng.choice(["notify", "notify", "wrapped"]), "id": 101 + 3 * j,
                     "off": rng.choice([-20, -60, -90, -99, -400, 30])})
         ops.append({"t": round(tb + rng.choice([0.006, 0.01, 0.03]), 6), "op": "send", "id": 102 + 3 * j})
+    if rng.random() < 0.25:
+        # unauthentic traffic while the synchronisation request is still unanswered (the first seconds): wrappers and
+        # notifications with timer values far ahead - none of it may leave a trace in the timer
+        for j in range(rng.choice([1, 2])):
+            ops.append({"t": round(rng.uniform(0.02, 2.5), 6), "op": rng.choice(["wrapped_forged", "wrapped_wrong_key", "notify_forged"]),
+                        "id": 200 + j, "off": rng.choice([10 ** 6, 2 ** 40, 10 ** 9]), "flip": rng.randrange(60 * 8, 70 * 8)})
     ops.sort(key=lambda o: o["t"])
     return {"seed": seed, "tier": "S" if sync not in ("dup", "one+stale") else "P",
             "config": {"sync": sync, "latency_ms": rng.choice([1000, 1000, 2000, 500]),
@@ -183,6 +189,30 @@ def run(plan: dict[str, Any]) -> dict[str, Any]:
         for i, p in enumerate(peers):
             p.on_datagram = on_peer(i)
         t0 = loop.time()
+
+        def early(op):
+            # unauthentic frames while the synchronisation is pending
+            ind_ = W.routing_indication(W.cemi_ldata(W.L_DATA_IND, 0x1107, W.ga(1, 1, 2),
+                                                     tpci_apci=W.gv_write(op["id"].to_bytes(2, "big"))))
+            value = max(1, timer.current_timer_value() + op["off"])
+            values[op["id"]] = value
+            if op["op"] == "notify_forged":
+                fr = C.timer_notify(key, value, b"\x00\xfa\x12\x34\x56\x78", b"\x00\x07")
+                fr = fr[:-3] + bytes((fr[-3] ^ 0x10,)) + fr[-2:]
+            else:
+                fr = C.wrap(key if op["op"] != "wrapped_wrong_key" else bytes(16), 0, value.to_bytes(6, "big"),
+                            b"\x00\xfa\x12\x34\x56\x78", b"\x00\x07", ind_)
+                if op["op"] == "wrapped_forged":
+                    b = bytearray(fr)
+                    bit = op["flip"] % (len(b) * 8)
+                    b[bit // 8] ^= 1 << (bit % 8)
+                    fr = bytes(b)
+            R.extra_faults["unauthentic_frame_during_synchronisation"] += 1
+            peers[0].sendto(fr, MCAST, lat=0.002, nofault=True)
+
+        for op in plan["ops"]:
+            if op["id"] >= 200 and op["id"] < 300:
+                loop.at(t0 + op["t"], (lambda o=op: early(o)), label="op")
         try:
             await routing.connect()
         except CommunicationError:
@@ -258,7 +288,8 @@ def run(plan: dict[str, Any]) -> dict[str, Any]:
                 peers[0].sendto(fr, MCAST, lat=lat, nofault=True)
 
         for op in plan["ops"]:
-            loop.at(t0 + op["t"], (lambda o=op: do(o)), label="op")
+            if not 200 <= op["id"] < 300:
+                loop.at(t0 + op["t"], (lambda o=op: do(o)), label="op")
         await asyncio.sleep(max([o["t"] for o in plan["ops"]], default=4.0) + 3.0)
         await asyncio.gather(*tasks, return_exceptions=True)
         await routing.disconnect()
@@ -325,6 +356,9 @@ def run(plan: dict[str, Any]) -> dict[str, Any]:
         if v2 < v1:
             R.violate("C30.timer-monotone", "outgoing-timer-decreased", f"{v1} at {t1:.3f} then {v2} at {t2:.3f}")
     post = [(t, v) for (t, v, k) in outs if t - t_start > info.get("connect_t", 0.0) + 1e-9]
+    pre = [(t, v) for (t, v, k) in outs if t - t_start <= info.get("connect_t", 0.0) + 1e-9]
+    if pre:
+        post = [pre[-1]] + post      # the client's own synchronisation request is the baseline for what follows
     for (t1, v1), (t2, v2) in zip(post, post[1:]):
         allowed = v1 + (t2 - t1) * 1000 + 2
         for (ta, va) in auth_in:
